@@ -274,8 +274,8 @@ impl Scenario for Pipeline {
     }
     fn runs(&self, tier: Tier) -> u64 {
         match tier {
-            Tier::Quick => 2_500,
-            Tier::Thorough => 250_000,
+            Tier::Quick => 1_500,
+            Tier::Thorough => 200_000,
         }
     }
     fn generate(&self, rng: &mut Rng, tier: Tier, _idx: u64) -> PipelinePlan {
